@@ -644,6 +644,25 @@ func gen(rng *rand.Rand, tier core.Tier, emit core.Emit) {
 			emit("view", st, hx("1.1.1.1:10480"))
 		}
 	}
+	// hostnames far beyond what the game lets an operator type (nothing in the protocol caps the reported value): the
+	// renderers must treat a long name like a short one
+	for _, target := range []int{100, 255, 256, 257, 300, 1500} {
+		for k := 0; k < 2; k++ {
+			var sb strings.Builder
+			for sb.Len() < target-30 {
+				sb.WriteString(hostAlphabet[rng.Intn(len(hostAlphabet))])
+			}
+			sb.WriteString("<img src=x onerror=alert(1)>")
+			for sb.Len() < target {
+				sb.WriteString("x")
+			}
+			hn := strings.ToValidUTF8(sb.String(), "?")
+			emit("html", hx(hn))
+			emit("clean", hx(hn))
+			st := fmt.Sprintf("p:1.1.1.1:10480:%d:10481:%s", randStatus(rng)|int(ds.Details), hx(hn))
+			emit("view", st, hx("1.1.1.1:10480"))
+		}
+	}
 	for i := 0; i < 1500*scale; i++ {
 		h := hx(randHostname(rng))
 		emit("html", h)
